@@ -1,5 +1,6 @@
 #!/bin/bash
-# tools/collect_seed.sh C06-a : copy a sub-agent's deliverables from /tmp/seed/<id>/seed into seeded/<id>/ and drop its worktree
+# tools/collect_seed.sh C06-d        : copy a sub-agent's deliverables from /tmp/seed/<id> into seeded/<id>/ (worktree kept)
+# tools/collect_seed.sh C06-d drop   : additionally record verify.json (tools/verify_seed.sh) and remove the scratch worktree
 set -e
 id=$1
 src=/tmp/seed/$id/seed
@@ -8,7 +9,10 @@ mkdir -p $dst
 git -C /tmp/seed/$id diff -- andes > $dst/patch.diff
 cp $src/demo.py $dst/demo.py 2>/dev/null || true
 cp $src/meta.json $dst/meta.json
-git -C /repo worktree remove --force /tmp/seed/$id
-git -C /repo worktree prune
-rm -rf /tmp/seed/$id /tmp/seed/prompt-$id.txt
+if [ "$2" = "drop" ]; then
+  cp $src/verify.json $dst/verify.json 2>/dev/null || true
+  git -C /repo worktree remove --force /tmp/seed/$id
+  git -C /repo worktree prune
+  rm -rf /tmp/seed/$id /tmp/seed/prompt-$id.txt
+fi
 wc -l $dst/patch.diff
